@@ -151,6 +151,10 @@ impl Stage for ContainerRows {
         let n = 8 + src.below(56) as i64;
         let hot = src.range(0, 3);
         let mut cmds = vec![];
+        // the union partner is OLDER than the hot element, so the hot element's id is displaced and every container
+        // holding it is rewritten in place
+        let partner = 1000 + src.range(0, 3);
+        cmds.push(Cmd::Act(Action::Expr(num(partner))));
         for i in 0..n {
             // every container mentions the "hot" element, so one union rewrites all of them in place
             let es = if src.bool() { vec![num(hot), num(10 + i)] } else { vec![num(10 + i), num(hot)] };
@@ -160,7 +164,7 @@ impl Stage for ContainerRows {
                 cmds.push(Cmd::Act(Action::Expr(Term::App(2, vec![c, Term::I(i % 3)]))));
             }
         }
-        cmds.push(Cmd::Act(Action::Union(num(hot), num(1000 + src.range(0, 3)))));
+        cmds.push(Cmd::Act(Action::Union(num(hot), num(partner))));
         if src.bool() {
             cmds.push(Cmd::Act(Action::Union(num(10), num(11))));
         }
